@@ -79,6 +79,8 @@ pub impl Vec<SpeedLimitPoint> {
             while self[idx_end].offset > speed_limit.offset_end {
                 idx_end -= 1;
             }
+            // Speed point in effect at offset end before this speed limit is applied
+            let point_end_old = self[idx_end];
 
             // If the speed starts at an offset not already in speeds
             if speed_limit.offset_start < self[idx_start].offset {
@@ -100,8 +102,8 @@ pub impl Vec<SpeedLimitPoint> {
             }
 
             // If the old speed does not end at offset end
-            if self[idx_end].offset < speed_limit.offset_end {
-                let speed_old = self[idx_end].speed_limit;
+            if point_end_old.offset < speed_limit.offset_end {
+                let speed_old = point_end_old.speed_limit;
 
                 // If the speed is different, insert the old speed at offset end
                 if speed_old != min_speed(speed_old, speed_limit.speed) {
